@@ -1129,7 +1129,14 @@ func c04Service(c *an.Ctx) {
 		}
 	}
 	var fAllow *types.Var
-	if n := p.Named(pkg, "blockService"); n != nil {
+	// the struct type of the package implementing BlockService with an Allowlist field
+	var svc *types.Named
+	for _, cand := range c01StructTypes(p, pkg) {
+		if c01Implements(p, cand, pkg, "BlockService") && len(c01FieldBy(cand, func(x types.Type) bool { return an.TypeIs(x, c04Verifcid, "Allowlist") })) == 1 {
+			svc = cand
+		}
+	}
+	if n := svc; n != nil {
 		if st, ok := n.Underlying().(*types.Struct); ok {
 			for i := 0; i < st.NumFields(); i++ {
 				if an.TypeIs(st.Field(i).Type(), c04Verifcid, "Allowlist") {
@@ -1370,7 +1377,101 @@ func c04Validate(c *an.Ctx) {
 		}
 		return len(cl.Call.Args) == 1 && isPrefixField(x, cl.Call.Args[0], "MhType")
 	}
-	allRoots := func(x *frame, v ssa.Value, meth string) bool {
+	// fieldSources: v reads field #i of a struct value built in this frame or
+	// returned by a package helper (`bounds := digestBoundsFor(al, code)`;
+	// `bounds.min`): the values stored into that field, with their frames
+	type fv struct {
+		x *frame
+		v ssa.Value
+	}
+	var fieldSources func(x *frame, v ssa.Value, depth int) ([]fv, bool)
+	fieldSources = func(x *frame, v ssa.Value, depth int) ([]fv, bool) {
+		if depth > 3 {
+			return nil, false
+		}
+		var base ssa.Value
+		idx := -1
+		switch y := v.(type) {
+		case *ssa.Field:
+			base, idx = y.X, y.Field
+		case *ssa.UnOp:
+			if fa, ok := y.X.(*ssa.FieldAddr); ok && y.Op == token.MUL {
+				base, idx = fa.X, fa.Field
+			}
+		}
+		if idx < 0 {
+			return nil, false
+		}
+		var out []fv
+		var fromStruct func(fr *frame, sv ssa.Value, d int) bool
+		fromStruct = func(fr *frame, sv ssa.Value, d int) bool {
+			if d > 4 {
+				return false
+			}
+			switch z := sv.(type) {
+			case *ssa.Alloc:
+				n := 0
+				for _, ref := range *z.Referrers() {
+					switch r := ref.(type) {
+					case *ssa.FieldAddr:
+						if r.Field != idx {
+							continue
+						}
+						for _, rr := range *r.Referrers() {
+							if st, ok := rr.(*ssa.Store); ok && st.Addr == ssa.Value(r) {
+								out = append(out, fv{fr, st.Val})
+								n++
+							}
+						}
+					case *ssa.Store:
+						if r.Addr == ssa.Value(z) {
+							if !fromStruct(fr, r.Val, d+1) {
+								return false
+							}
+							n++
+						}
+					}
+				}
+				return n > 0
+			case *ssa.UnOp:
+				if z.Op == token.MUL {
+					return fromStruct(fr, z.X, d+1)
+				}
+			case *ssa.Call:
+				H := z.Call.StaticCallee()
+				if H == nil || H.Blocks == nil || H.Pkg != fn.Pkg || H == fr.fn {
+					return false
+				}
+				hf := &frame{H, fr, z}
+				n := 0
+				for _, r := range an.Returns(H) {
+					if !an.Reaches(H, nil, r, nil, nil) || len(r.Results) == 0 {
+						continue
+					}
+					n++
+					if !fromStruct(hf, an.RetVal(r, 0), d+1) {
+						return false
+					}
+				}
+				return n > 0
+			}
+			return false
+		}
+		if !fromStruct(x, base, 0) {
+			return nil, false
+		}
+		return out, len(out) > 0
+	}
+	var allRoots func(x *frame, v ssa.Value, meth string) bool
+	allRoots = func(x *frame, v ssa.Value, meth string) bool {
+		if srcs, ok := fieldSources(x, c01First(an.Roots(v, nil)), 0); ok {
+			for _, sv := range srcs {
+				if !allRoots(sv.x, sv.v, meth) {
+					return false
+				}
+			}
+			return true
+		}
 		if a, ok := lift(x, v); ok {
 			// e.g. the minimum computed by the caller and passed in
 			rs := an.Roots(a, nil)
@@ -1465,7 +1566,17 @@ func c04Validate(c *an.Ctx) {
 	c.Min("O3 rejecting returns of ValidateCid", nErr, 1)
 
 	// custom allowlist: answers from the map, the override, or false
-	if isA := p.Func(c04Verifcid, "allowlist", "IsAllowed"); c.Need(isA != nil, "verifcid.allowlist.IsAllowed") {
+	// the map-backed allowlist: struct type implementing Allowlist with a map[uint64]bool field
+	var isA *ssa.Function
+	for _, cand := range c01StructTypes(p, c04Verifcid) {
+		if !c01Implements(p, cand, c04Verifcid, "Allowlist") {
+			continue
+		}
+		if len(c01FieldBy(cand, func(x types.Type) bool { _, isMap := x.Underlying().(*types.Map); return isMap })) > 0 {
+			isA = p.Func(c04Verifcid, cand.Obj().Name(), "IsAllowed")
+		}
+	}
+	if c.Need(isA != nil, "IsAllowed of the map-backed Allowlist implementation of verifcid") {
 		code := isA.Params[1]
 		ok := true
 		for _, r := range an.Returns(isA) {
@@ -1520,7 +1631,12 @@ func c04Validate(c *an.Ctx) {
 		otherWant   string
 		description string
 	}{{"MinDigestSize", "", "DefaultMinDigestSize", "identity exempt from the minimum"}, {"MaxDigestSize", "DefaultMaxIdentityDigestSize", "DefaultMaxDigestSize", "identity capped"}} {
-		m := p.Func(c04Verifcid, "defaultAllowlist", spec.meth)
+		var m *ssa.Function
+		if dv, ok := p.Pkg(c04Verifcid).Types.Scope().Lookup("DefaultAllowlist").(*types.Var); ok {
+			if dn, ok := types.Unalias(dv.Type()).(*types.Named); ok {
+				m = p.Func(c04Verifcid, dn.Obj().Name(), spec.meth)
+			}
+		}
 		if !c.Need(m != nil, "verifcid.defaultAllowlist."+spec.meth) {
 			continue
 		}
